@@ -3,7 +3,7 @@
    [parse_toks] are the model of the code as it is now (after the four `fix:` commits);
    the flag [false] selects the code before them (used only by the _refuted lemmas).
    Every theorem about evaluation holds for ALL float primitive records [fops]. *)
-From Cam Require Import Outcome Formula FuncTable FormulaSyntax FormulaStd P_C05 P_C05b P_C05c.
+From Cam Require Import Outcome Formula FuncTable FormulaSyntax FormulaStd P_C05 P_C05b P_C05c P_C05d.
 
 (* Evaluation never panics: any expression, any environment (entries are expressions, possibly
    cyclic), any fuel, any float primitives. *)
@@ -145,6 +145,66 @@ Theorem C05_spelling_example : forall fops,
   wf_expr ex_expr /\ spells_all fops (pp_min ex_expr) ex_src.
 Proof. exact ex_spelled. Qed.
 Print Assumptions C05_spelling_example.
+
+(* ---- tight spellings, redundant parentheses, unary plus (proofs/P_C05d.v) ---- *)
+
+(* Token level, loose prints: the parser returns e on EVERY print of e with the necessary
+   parentheses plus any redundant ones (also nested), prefix -x or NEG(x), and an optional unary
+   plus wherever the grammar takes one ([prints], spec/FormulaStd.v).  pp_min and pp_full are
+   two such prints (C05_pr_prints), so this subsumes C05_parse_pp_min/_full. *)
+Theorem C05_parse_prints : forall e ts,
+  prints 0 e ts -> exists f0, forall f, (f0 <= f)%nat -> parse_toks f ts = Ok e.
+Proof. exact parse_prints. Qed.
+Print Assumptions C05_parse_prints.
+
+Theorem C05_pr_prints : forall full e, wf_expr e -> forall c, prints c e (pr full c e).
+Proof. exact pr_prints. Qed.
+Print Assumptions C05_pr_prints.
+
+(* parse (tokens of "( e )") = parse (tokens of "e"), and of "+ e" for a power-level e *)
+Theorem C05_parse_redundant_parens : forall e ts,
+  prints 0 e ts -> exists f0, forall f, (f0 <= f)%nat -> parse_toks f (TLParen :: ts ++ [TRParen]) = Ok e.
+Proof. exact parse_redundant_parens. Qed.
+Print Assumptions C05_parse_redundant_parens.
+
+Theorem C05_parse_unary_plus : forall e ts,
+  prints 12 e ts -> exists f0, forall f, (f0 <= f)%nat -> parse_toks f (TPlus :: ts) = Ok e.
+Proof. exact parse_unary_plus. Qed.
+Print Assumptions C05_parse_unary_plus.
+
+(* Lexer without separating white space: a token sequence, each token with any of its spellings
+   (operators may mix raw and escaped characters), rendered with a single space exactly where
+   [needs_space] holds, lexes back to the sequence. *)
+Theorem C05_lex_min_space : forall fops l,
+  Forall (spelled fops) l -> lex_all fops (S (length l)) (render_min_space l) = Ok (map fst l).
+Proof. exact lex_render_min_space. Qed.
+Print Assumptions C05_lex_min_space.
+
+(* ... and so does every text that has white space at least there ([spelt]: any white space may
+   be added in front of any token and at the end). *)
+Theorem C05_lex_spelt : forall fops l src,
+  spelt fops l src -> lex_all fops (S (length l)) src = Ok (map fst l).
+Proof. exact lex_all_spelt. Qed.
+Print Assumptions C05_lex_spelt.
+
+(* Source level: formula::parse on the minimal-space rendering of any spelling of any loose
+   print of e returns e (e.g. "-A&lt;=(B)*+0x1f"), and on every text with more white space. *)
+Theorem C05_parse_src_min_space : forall fops e l,
+  prints 0 e (map fst l) -> Forall (spelled fops) l ->
+  exists f0, forall f, (f0 <= f)%nat -> parse_src fops true f (render_min_space l) = Ok e.
+Proof. exact parse_src_min_space. Qed.
+Print Assumptions C05_parse_src_min_space.
+
+Theorem C05_parse_src_prints : forall fops e l src,
+  prints 0 e (map fst l) -> spelt fops l src ->
+  exists f0, forall f, (f0 <= f)%nat -> parse_src fops true f src = Ok e.
+Proof. exact parse_src_prints. Qed.
+Print Assumptions C05_parse_src_prints.
+
+Theorem C05_min_space_example : forall fops,
+  prints 0 ex2_expr (map fst ex2_toks) /\ Forall (spelled fops) ex2_toks /\ render_min_space ex2_toks = ex2_src.
+Proof. exact ex2_ok. Qed.
+Print Assumptions C05_min_space_example.
 
 (* Defects of the pinned code (each repaired by one `fix:` commit in /repo). *)
 Theorem C05_rem_zero_refuted : forall fops,
